@@ -163,24 +163,29 @@ class Value:
             den_input = 1
             if len(value_items) > 1:
                 cur_code = value_items[1]
-            network_names = [n for n in NETWORK_DEFINITIONS if
-                             NETWORK_DEFINITIONS[n]['currency_code'].upper() == cur_code.upper()]
-            if network_names:
-                self.network = Network(network_names[0])
-                self.currency = cur_code
-            else:
-                for den, symb in NETWORK_DENOMINATORS.items():
-                    if len(symb) and cur_code[:len(symb)] == symb:
+            def networks_with_code(code, ignore_case=True):
+                return [n for n in NETWORK_DEFINITIONS if NETWORK_DEFINITIONS[n]['currency_code'] == code or
+                        (ignore_case and NETWORK_DEFINITIONS[n]['currency_code'].upper() == code.upper())]
+
+            # An exact currency code wins over <denominator><currency code>: 'tBTC' is testnet, 'TBTC' is tera-BTC
+            network_names = networks_with_code(cur_code, ignore_case=False)
+            if not network_names:
+                # Longest denominator symbol first ('da' before 'd'), the remainder must be empty or a currency code
+                for den, symb in sorted(NETWORK_DENOMINATORS.items(), key=lambda x: -len(x[1])):
+                    if len(symb) and cur_code[:len(symb)] == symb and \
+                            (cur_code == symb or networks_with_code(cur_code[len(symb):])):
                         cur_code = cur_code[len(symb):]
-                        network_names = [n for n in NETWORK_DEFINITIONS if
-                                         NETWORK_DEFINITIONS[n]['currency_code'].upper() == cur_code.upper()]
-                        if network_names:
-                            self.network = Network(network_names[0])
-                            self.currency = cur_code
-                        elif len(cur_code):
-                            raise ValueError("Currency symbol not recognised")
                         den_input = den
                         break
+                network_names = networks_with_code(cur_code)
+                if len(cur_code) and not network_names and \
+                        [symb for symb in NETWORK_DENOMINATORS.values() if len(symb) and cur_code[:len(symb)] == symb]:
+                    raise ValueError("Currency symbol not recognised")
+            if network_names:
+                # Keep the network of this Value if it uses this currency code (testnet4, litecoin_legacy)
+                if self.network.name not in network_names:
+                    self.network = Network(network_names[0])
+                self.currency = cur_code
             self.value = float(value) * den_input
             if den_input != 1 and math.isfinite(self.value):
                 # Multiply in decimal arithmetic, the binary product can be one satoshi off for large amounts
